@@ -138,8 +138,11 @@ impl Prop for P05 {
                 // backslash followed by something interesting
                 let nxt = *rng.pick(&[b' ', b'\n', b'\'', b'"', b'\\', b'x']);
                 vec![b'\\', nxt]
-            } else if r < 77 {
+            } else if r < 75 {
                 "é".as_bytes().to_vec()
+            } else if r < 77 {
+                // bytes that are not valid UTF-8: a lead byte alone, a continuation byte alone, 0xFF
+                vec![*rng.pick(&[0xc3u8, 0xa9, 0xff, 0xe2])]
             } else if r < 80 {
                 // characters whose UTF-8 encoding contains bytes that are white space in Latin-1 / Unicode (0x85, 0xA0)
                 rng.pick(&["à", "Å", "\u{a0}", "\u{2028}"]).as_bytes().to_vec()
